@@ -96,7 +96,7 @@ def gen_program(rng, kind, ntx=None, small=False):
             # exercised by its own corpus probe)
             cands = [j for j in undoable if (not kind.startswith('demo')) or
                      (j >= split and not (step_oids.get(j, set()) & base_oids))]
-            if canundo and cands and r < 0.3 and (in_changes or not kind.startswith('demo')) \
+            if canundo and cands and r < 0.42 and (in_changes or not kind.startswith('demo')) \
                     and not ops:
                 ops.append(['u', rng.choice(cands[-3:])])
                 break                                  # an undo is the only op of its transaction
